@@ -255,7 +255,12 @@ class OverSamplerIterate(AbstractOverSampler):
 
         for sub_size in self.sub_steps[:-1]:
             array_higher_sub = self.array_at_sub_size_from(
-                func=func, cls=obj, mask=threshold_mask_lower_sub, sub_size=sub_size
+                func=func,
+                cls=obj,
+                mask=threshold_mask_lower_sub,
+                sub_size=sub_size,
+                *args,
+                **kwargs
             )
 
             try:
